@@ -113,7 +113,7 @@ PAIRS = [
 ]
 QUICK_WARM = ["same-config-same-language", "same-call-twice", "settings-differ-irrelevant-field", "shared-settings-dict-fr-vs-en",
               "skip-tokens-differ", "parse-vs-search", "relative-base-differs",
-              "same-config-fr-custom-settings", "default-parser-two-strings-not-in-the-first-language"]
+              "same-config-fr-custom-settings", "default-parser-two-strings-not-in-the-first-language", "cache-limit-1-twice"]
 QUICK_WARM_REV = ["relative-base-differs", "same-config-same-language", "settings-differ-irrelevant-field"]
 QUICK_COLD = ["shared-settings-dict-fr-vs-en", "relative-base-differs", "equal-settings-that-matter", "no-spaces-parser-first-use"]
 THOROUGH_COLD_ALL = ["shared-settings-dict-fr-vs-en", "same-config-same-language", "skip-tokens-differ"]
